@@ -69,7 +69,11 @@ impl Prop for C12 {
         let s = (gen::node_strategy(&cfg), gen::flags_strategy("ms"), gen::raw_inputs(10, 7))
             .prop_map(|(node, flags, inputs)| AstCase { node, flags, inputs: Inputs::Raw(inputs) })
             .boxed();
-        vec![Part { name: "random-anchors-dot".into(), strategy: s, cases: tier.pick(150_000, 3_000_000) }]
+        vec![
+            Part { name: "random-anchors-dot".into(), strategy: s, cases: tier.pick(150_000, 3_000_000) },
+            // long multi-line inputs, large counts: line seeking and anchors far from offset 0
+            Part { name: "scaled".into(), strategy: super::c01::scaled_part(&cfg, "ms"), cases: tier.pick(30_000, 400_000) },
+        ]
     }
     fn enumerations(&self, tier: Tier) -> Vec<(String, String, Box<dyn Iterator<Item = AstCase> + Send>)> {
         let size = tier.pick(3, 4);
